@@ -102,6 +102,24 @@ class OptV:
 FLAG_FIELDS = {'ZERO_UP': 'zeroUp', 'ZERO_DOWN': 'zeroDown', 'MACH': 'mach', 'RANGE': 'range', 'APEX': 'apex'}
 
 
+class IntSym:
+    """a symbolic natural number (an index / a length)"""
+    def __init__(self, s):
+        self.s = s
+
+
+class SymArr:
+    """the tuple of winds of a wind sock: Lean `Array (Model.WindSeg α)`; an element stands for a Wind object through the two
+    reads the sock performs on it (`.vector` -> `.vec`, `.until_distance >> Distance.Foot` -> `.untilFt`)"""
+    def __init__(self, s):
+        self.s = s
+
+
+class WindElem:
+    def __init__(self, s):
+        self.s = s
+
+
 class StrC:
     def __init__(self, v):
         self.v = v
@@ -218,6 +236,10 @@ class Evaluator:
                 return getattr(base, e.attr)
             if isinstance(base, Qty) and e.attr == 'raw_value':
                 return Num(base.raw)
+            if isinstance(base, WindElem) and e.attr == 'vector':
+                return vec(f'{base.s}.vec')
+            if isinstance(base, WindElem) and e.attr == 'until_distance':
+                return Qty('Distance:ft', base.s)
             if isinstance(base, Obj) and e.attr in base.fields:
                 return base.fields[e.attr]
             raise Unsupported(f'attribute {d or ast.dump(e)}')
@@ -235,6 +257,8 @@ class Evaluator:
                 return self.ev(e.operand, env)
             if isinstance(e.op, ast.Not):
                 c = self.cond(e.operand, env)
+                if c.kind == 'static':
+                    return Cond('static', not c.s)
                 return Cond('bool', f'!({c.as_bool()})')
             raise Unsupported('unary op')
         if isinstance(e, ast.BinOp):
@@ -248,12 +272,22 @@ class Evaluator:
             idx = e.slice
             if isinstance(base, Lst) and isinstance(idx, ast.Constant) and isinstance(idx.value, int):
                 return base.items[idx.value]
+            if isinstance(base, SymArr):
+                i = self.ev(idx, env)
+                if isinstance(i, (IntSym, IntC)):
+                    it = i.s if isinstance(i, IntSym) else str(i.v)
+                    return WindElem(f'(({base.s})[{it}]?.getD (Model.WindSeg.mk 0.0 (Model.Vec.mk 0.0 0.0 0.0)))')
             raise Unsupported('subscript')
         if isinstance(e, (ast.List, ast.Tuple)):
             items = [self.ev(x, env) for x in e.elts]
             return Tup(items) if isinstance(e, ast.Tuple) else Lst(items)
         if isinstance(e, ast.Call):
             return self.call(e, env)
+        if isinstance(e, ast.BoolOp) and isinstance(e.op, ast.Or) and len(e.values) == 2 and isinstance(e.values[1], ast.Call) \
+                and self.dotted(e.values[1].func) == 'tuple' and not e.values[1].args:
+            v = self.ev(e.values[0], env)
+            if isinstance(v, SymArr):
+                return v        # `winds or tuple()`: an empty tuple is replaced by an empty tuple
         if isinstance(e, (ast.Compare, ast.BoolOp)):
             return self.cond(e, env)
         raise Unsupported(f'expression {type(e).__name__}')
@@ -262,6 +296,8 @@ class Evaluator:
         op = e.op
         a = self.ev(e.left, env)
         if isinstance(op, ast.RShift):
+            if isinstance(a, Qty) and a.dim == 'Distance:ft' and self.dotted(e.right) == 'Distance.Foot':
+                return Num(f'{a.raw}.untilFt')
             if isinstance(a, Qty):
                 d = self.dotted(e.right)
                 if d and '.' in d:
@@ -287,6 +323,8 @@ class Evaluator:
             if isinstance(a, Vec):
                 return self.call_method('Vector', name, a, [b], env)
             return self.call_method('Vector', {'__add__': '__radd__', '__sub__': '__rsub__', '__mul__': '__rmul__'}[name], b, [a], env)
+        if isinstance(a, IntSym) and isinstance(b, IntC) and isinstance(op, ast.Add) and b.v >= 0:
+            return IntSym(f'({a.s} + {b.v})')
         if isinstance(a, IntC) and isinstance(b, IntC) and isinstance(op, (ast.Add, ast.Sub, ast.Mult)):
             v = {ast.Add: a.v + b.v, ast.Sub: a.v - b.v, ast.Mult: a.v * b.v}[type(op)]
             return IntC(v)
@@ -308,6 +346,10 @@ class Evaluator:
     def truth(self, v):
         if isinstance(v, Cond):
             return v
+        if isinstance(v, Vec):
+            return Cond('static', True)     # a NamedTuple of three fields is truthy
+        if isinstance(v, NoneV):
+            return Cond('static', False)
         if isinstance(v, (Num, IntC)):
             return Cond('bool', f'nz {num(v)}')
         raise Unsupported(f'truthiness of {type(v).__name__}')
@@ -343,6 +385,18 @@ class Evaluator:
             if isinstance(a, OptV):
                 return Cond('bool', f'({a.s}).isNone' if pos else f'({a.s}).isSome')
             return Cond('static', not pos)
+        if isinstance(e, ast.Compare) and len(e.ops) == 1 and not isinstance(e.ops[0], (ast.Is, ast.IsNot)) and \
+                any(isinstance(self.ev(x, env), IntSym) for x in (e.left, e.comparators[0])):
+            a, b = self.ev(e.left, env), self.ev(e.comparators[0], env)
+            a = IntSym(str(a.v)) if isinstance(a, IntC) and a.v >= 0 else a
+            b = IntSym(str(b.v)) if isinstance(b, IntC) and b.v >= 0 else b
+            if not (isinstance(a, IntSym) and isinstance(b, IntSym)):
+                raise Unsupported('index compared with a non-index')
+            op = e.ops[0]
+            t = {ast.Lt: f'{a.s} < {b.s}', ast.Gt: f'{b.s} < {a.s}', ast.LtE: f'{a.s} ≤ {b.s}', ast.GtE: f'{b.s} ≤ {a.s}'}.get(type(op))
+            if t is None:
+                raise Unsupported('index comparison')
+            return Cond('prop', t)
         if isinstance(e, ast.Compare) and len(e.ops) == 1:
             a, b = self.ev(e.left, env), self.ev(e.comparators[0], env)
             op = e.ops[0]
@@ -394,6 +448,10 @@ class Evaluator:
             if x == y:
                 return Num(x)
             return Num(f'(if {c.as_if()} then {x} else {y})')
+        if isinstance(a, IntSym) and isinstance(b, IntSym):
+            if a.s == b.s:
+                return a
+            return IntSym(f'(if {c.as_if()} then {a.s} else {b.s})')
         if isinstance(a, Flg) and isinstance(b, Flg):
             if a.s == b.s:
                 return a
@@ -437,6 +495,8 @@ class Evaluator:
             raise Unsupported(f'math.{n}')
         if d in ('abs',) and len(args) == 1:
             return Num(f'(Fn.abs {num(args[0])})')
+        if d == 'len' and len(args) == 1 and isinstance(args[0], SymArr):
+            return IntSym(f'({args[0].s}).size')
         if d == 'float' and len(args) == 1:
             return Num(num(args[0]))
         if d == 'max' and len(args) == 2:
@@ -941,6 +1001,60 @@ def emit_filter(ev, spec):
     return doc + f' -/\ndef {lname} {binders} : Model.TFilter α :=\n  {st}\n'
 
 
+def sock_env(fresh):
+    env = {'self.__class__': '_WindSock'}      # Wind.MAX_DISTANCE_FEET resolves to the class constant (cMaxWindDistanceFeet)
+    if not fresh:
+        env.update({'self.winds': SymArr('ws.winds'), 'self.current': IntSym('ws.current'), 'self.next_range': Num('ws.nextRange'),
+                    'self._last_vector_cache': vec('ws.vec'), 'self._length': IntSym('(ws.winds).size')})
+    return env
+
+
+def sock_state(env, fresh):
+    w, c, n, v = env.get('self.winds'), env.get('self.current'), env.get('self.next_range'), env.get('self._last_vector_cache')
+    if not (isinstance(w, SymArr) and isinstance(c, (IntSym, IntC)) and isinstance(v, Vec)):
+        raise Unsupported('wind sock state not recognised')
+    known = {'self.winds', 'self.current', 'self.next_range', 'self._last_vector_cache', 'self._length', 'self.__class__'}
+    extra = {k for k in env if k.startswith('self.')} - known
+    if extra:
+        raise Unsupported(f'the wind sock has attributes the model does not know: {sorted(extra)}')
+    ct = c.s if isinstance(c, IntSym) else str(c.v)
+    return (f'{{ winds := {w.s}, current := {ct}, nextRange := {num(n)}, vec := ⟨{num(v.x)}, {num(v.y)}, {num(v.z)}⟩, '
+            f'maxDist := {"maxDist" if fresh else "ws.maxDist"} }}')
+
+
+def emit_sock(ev):
+    out = []
+    m = ev.method('_WindSock', '__init__')
+    if m is None:
+        raise Unsupported('_WindSock.__init__ not found')
+    env = sock_env(True)
+    env['winds'] = SymArr('winds')
+    if ev.block(m.body, env) is not None:
+        raise Unsupported('_WindSock.__init__ returns a value')
+    out.append('/-- `_WindSock.__init__(winds)` (with `update_cache()` inlined); an element of `winds` stands for a `Wind` through its\n'
+               '    `.vector` and `.until_distance >> Distance.Foot` -/\n'
+               'def sock_init (winds : Array (Model.WindSeg α)) (maxDist : α) : Model.WindSock α :=\n  ' + sock_state(env, True) + '\n')
+    m = ev.method('_WindSock', 'vector_for_range')
+    if m is None:
+        raise Unsupported('_WindSock.vector_for_range not found')
+    env = sock_env(False)
+    env['next_range'] = Num('x')
+    r = ev.block(m.body, env)
+    if not isinstance(r, Vec):
+        raise Unsupported('vector_for_range does not return a vector')
+    out.append('/-- `_WindSock.vector_for_range(x)`: the state of the sock after the call and the returned wind vector -/\n'
+               'def sock_vector_for_range (ws : Model.WindSock α) (x : α) : Model.WindSock α × Model.Vec α :=\n  ('
+               + sock_state(env, False) + f', ⟨{num(r.x)}, {num(r.y)}, {num(r.z)}⟩)\n')
+    m = ev.method('_WindSock', 'current_vector')
+    env = sock_env(False)
+    r = ev.block(m.body, env) if m is not None else None
+    if not isinstance(r, Vec):
+        raise Unsupported('current_vector does not return a vector')
+    out.append('/-- `_WindSock.current_vector()` -/\n'
+               f'def sock_current_vector (ws : Model.WindSock α) : Model.Vec α :=\n  ⟨{num(r.x)}, {num(r.y)}, {num(r.z)}⟩\n')
+    return '\n'.join(out)
+
+
 def find_self_assign(ev, cls, meth, attr):
     m = ev.method(cls, meth)
     for n in ast.walk(m) if m else []:
@@ -1003,7 +1117,8 @@ def generate(repo: Path) -> str:
     out.append(emit_step(ev))
     for spec in FILTER_SPECS:
         out.append(emit_filter(ev, spec))
-    out += ['end', '', 'def translated : List String := [' + ', '.join(f'"{s[0]}"' for s in SPECS) + ', "step", ' + ', '.join(f'"{s[0]}"' for s in FILTER_SPECS) + ']', '', 'end BC.Gen.Src', '']
+    out.append(emit_sock(ev))
+    out += ['end', '', 'def translated : List String := [' + ', '.join(f'"{s[0]}"' for s in SPECS) + ', "step", ' + ', '.join(f'"{s[0]}"' for s in FILTER_SPECS) + ', "sock_init", "sock_vector_for_range", "sock_current_vector"]', '', 'end BC.Gen.Src', '']
     return '\n'.join(out)
 
 
